@@ -70,6 +70,7 @@ class Emitter:
         self.refvars = [set()]
         self.renames = self.cfg.get("rename", {})
         self.const_types = {}  # const_globals name -> C type
+        self.truncated = []  # units cut at a stop_at_call statement
         self.lib = libmap
         self.dropped = []
         self.callees = {}  # cname -> description
@@ -128,6 +129,14 @@ class Emitter:
     # ---------------------------------------------------------------- naming
     def fn_cname(self, cls, name, typestr=None):
         base = (cls + "__" if cls else "") + self.op_name(name)
+        if name == "ctor" and cls and typestr:
+            # copy / move constructors get their own C names (overloads of the constructor of one class)
+            m = re.match(r"void \((const )?([\w:]+) ?(&&?)\)", typestr)
+            if m and m.group(2).split("::")[-1] == cls:
+                if m.group(3) == "&&":
+                    base += "_move"
+                elif m.group(1):
+                    base += "_copy"
         key = base + "|" + (typestr or "")
         if key in self.renames:
             return self.renames[key]
@@ -290,10 +299,19 @@ class Emitter:
         if kind == "EnumConstantDecl":
             et = (rd.get("type") or {}).get("qualType", "")
             cn = ident(et.split("::")[-1]) + "__" + name if et and not et.startswith("(") else name
+            if et in self.cfg.get("enum_rename", {}):
+                # "enum_rename": {qualified enum type: C prefix} keeps apart two enums with the same last name
+                cn = self.cfg["enum_rename"][et] + "__" + name
+            elif self.enum_consts.get(cn, (et, name)) != (et, name):
+                # same-named constant of two enums with the same last name (e.g. Action::State / activity::State)
+                cn = ident("_".join(et.split("::")[-2:])) + "__" + name
             self.enum_consts[cn] = (et, name)
             return cn
         if kind in ("ParmVarDecl", "VarDecl", "BindingDecl"):
             rt = (rd.get("type") or {}).get("qualType", "")
+            if kind == "VarDecl" and rt.replace("const ", "") in ("std::strong_ordering", "strong_ordering") and \
+                    name in ("less", "equal", "equivalent", "greater"):
+                return {"less": "(-1)", "equal": "0", "equivalent": "0", "greater": "1"}[name]
             if kind == "VarDecl" and rd["id"] not in self.locals and not self.is_local_name(name):
                 # global / static member variable
                 cn = self.global_name(n, rd)
@@ -303,7 +321,16 @@ class Emitter:
                 return "(*%s)" % cname
             return cname
         if kind in ("FunctionDecl", "CXXMethodDecl"):
-            return self.fn_cname(None, name, (rd.get("type") or {}).get("qualType"))
+            fnt = (rd.get("type") or {}).get("qualType")
+            cname = self.fn_cname(None, name, fnt)
+            if cname == self.op_name(name) and kind == "CXXMethodDecl":
+                # address of a static member function: named like the configured unit `...::Class::name`, as calls are
+                cands = [u for u in self.cfg.get("units", [])
+                         if len(u["name"].split("::")) >= 2 and u["name"].split("::")[-1] == name]
+                if len(cands) == 1:
+                    cname = cands[0].get("cname") or \
+                        self.fn_cname(self.tm.struct_tag(cands[0]["name"].split("::")[-2]), name, fnt)
+            return cname
         if kind == "FieldDecl":
             # captured field inside a lambda body
             return "self->" + name
@@ -317,6 +344,13 @@ class Emitter:
 
     def global_name(self, n, rd):
         name = rd["name"]
+        # same member name in two classes (Aid::INVALID_VALUE / Clock::INVALID_VALUE): a config key "<Class>::<name>"
+        # (class of the unit that mentions it) or "<name>|<c type>" takes precedence over the bare name
+        rtype = (rd.get("type") or {}).get("desugaredQualType") or (rd.get("type") or {}).get("qualType", "")
+        for qn in ("%s::%s" % (self.unit.cls, name), "%s|%s" % (name, rtype.replace("const ", ""))):
+            if qn in self.cfg.get("const_globals", {}) or qn in self.cfg.get("globals", {}):
+                name = qn
+                break
         if name in self.cfg.get("const_globals", {}):
             # compile-time constant of the real code: evaluated by the real compiler (cxx2c.eval_constants)
             self.const_needed.add(name)
@@ -519,6 +553,9 @@ class Emitter:
             return "vf_log_enabled"
         if op == "=" and self.try_ctype(a) and self.try_ctype(a).startswith("struct vf_str"):
             pass
+        if op == "<=>":
+            # three-way comparison of builtin operands: std::strong_ordering is mapped to int (-1, 0, 1)
+            return "VF_CMP3(%s, %s)" % (self.E(a), self.E(b))
         return "%s %s %s" % (self.paren(self.E(a)), op, self.paren(self.E(b)))
 
     e_CompoundAssignOperator = e_BinaryOperator
@@ -545,6 +582,16 @@ class Emitter:
 
     def e_ConditionalOperator(self, n):
         c, a, b = n["inner"]
+        ta, tb = skip(a).get("kind") == "CXXThrowExpr", skip(b).get("kind") == "CXXThrowExpr"
+        if ta != tb:
+            # `cond ? value : throw X(..)` (or the mirror image): the throw becomes a statement before the one that
+            # holds the expression; only where the conditional is evaluated unconditionally (no enclosing ?: && ||)
+            if getattr(self, "lazy_depth", 0) > 1:
+                raise Unsupported("conditional throw under ?: && ||")
+            ce = self.paren(self.E(c))
+            thr = self.s_CXXThrowExpr(skip(a if ta else b), "")[0]
+            self.pre.append("if (%s%s) %s" % ("" if ta else "!", ce, thr))
+            return self.E(b if ta else a)
         return "(%s ? %s : %s)" % (self.paren(self.E(c)), self.paren(self.E(a)), self.paren(self.E(b)))
 
     def e_ArraySubscriptExpr(self, n):
@@ -552,6 +599,10 @@ class Emitter:
         return "%s[%s]" % (self.paren(self.E(a)), self.E(b))
 
     def e_InitListExpr(self, n):
+        tq = n.get("type") or {}
+        if (tq.get("desugaredQualType") or tq.get("qualType") or "").rstrip().endswith("]"):
+            # initializer of a C array member (e.g. the `{{a, b, c}}` of a std::array): nested brace list
+            return "{%s}" % ", ".join(self.E(c) for c in n.get("inner", []))
         ct = self.ctype(n)
         items = [self.E(c) for c in n.get("inner", [])]
         if ct.startswith("struct vf_pair_") or ct.startswith("struct "):
@@ -823,6 +874,29 @@ class Emitter:
         r = self.lib.construct(self, n) if self.lib else None
         if r is not None:
             return r
+        oc = self.cfg.get("opaque_ctor", {})
+        try:
+            octag = self.tm.class_tag_of(self.ptype(n))
+        except Unsupported:
+            octag = None
+        if octag in oc:
+            # config opaque_ctor {Class: [kept argument indices]}: the object is an opaque value made by an assumed callee
+            # Class__make(kept arguments); the other constructor arguments are not modelled.
+            args = [a for a in n.get("inner", [])]
+            pcs, avs = [], []
+            for i in oc[octag]:
+                r2 = self.infer_arg(args[i])
+                pcs.append(r2[0])
+                avs.append(r2[1])
+            cname = octag + "__make"
+            self.structs.setdefault(octag, {})
+            self.note_proto(cname, "struct " + octag, pcs, "opaque constructor of %s (arguments %s kept)" % (octag, oc[octag]))
+            self.callees.setdefault(cname, "%s::%s (opaque)" % (octag, octag))
+            self.callflag = True
+            return "%s(%s)" % (cname, ", ".join(avs))
+        r = self.class_construct(n, None)
+        if r is not None:
+            return r
         # by-value construction of a plain (non-model) class: `T(args)` -> `T__make(args)`, a function returning the
         # struct; its body (`struct T r; T__ctor(&r, args); return r;`) is generated when the constructor is a unit,
         # otherwise it is a callee that needs an assumed contract in the spec
@@ -841,6 +915,43 @@ class Emitter:
             return "%s(%s)" % (cn, ", ".join(args))
         raise Unsupported("constructor of %s (%s)" % (qt(n), fnt))
 
+    def class_construct(self, n, target):
+        """object of a (SimGrid) class built by one of its constructors: a temporary (or `target`, the name of a declared
+        variable) initialised by a call to the constructor, which is a unit or a callee like any other function
+        (defaulted copy/move constructors have bodies in clang's AST: they are extracted, not assumed)."""
+        ct = self.try_ctype(n)
+        fnt = n.get("ctorType", {}).get("qualType")
+        if ct is None or not fnt or not ct.startswith("struct ") or ct.endswith("*") or ct.startswith("struct vf_"):
+            return None
+        tag = ct[len("struct "):]
+        args = [a for a in n.get("inner", [])]
+        if n.get("elidable") and len(args) == 1 and args[0].get("valueCategory") == "prvalue" and \
+                self.try_ctype(args[0]) == ct:
+            return self.E(args[0])  # copy elision of a prvalue (guaranteed since C++17)
+        self.structs.setdefault(tag, {})
+        cn = self.fn_cname(tag, "ctor", fnt)
+        params = self.fn_params_from(fnt)
+        self.note_proto(cn, "void", ["struct %s*" % tag] + self.param_ctypes_from(fnt), "ctor %s %s" % (tag, fnt))
+        self.callees.setdefault(cn, "%s::%s %s" % (tag, tag, fnt))
+        if target is None and getattr(self, "lazy_depth", 0) > 0:
+            # under ?: && || the temporary must be built where the expression is evaluated (not hoisted before the
+            # statement): GNU statement expression; the exception test is the one after the whole statement
+            pre, avs = self.with_pre(lambda: self.call_args(args, params))
+            self.callflag = True
+            self.unit.tmp += 1
+            t = "__t%d" % self.unit.tmp
+            return "({ %s %s; %s %s(%s); %s; })" % (ct, t, " ".join(pre), cn, ", ".join(["&" + t] + avs), t)
+        avs = self.call_args(args, params)
+        self.callflag = True
+        if target is None:
+            self.unit.tmp += 1
+            target = "__t%d" % self.unit.tmp
+            self.pre.append("%s %s;" % (ct, target))
+        self.pre.append("%s(%s);" % (cn, ", ".join(["&" + target] + avs)))
+        if self.cfg.get("exceptions", True):
+            self.pre.append("if (vf_exc) " + self.ret_zero())
+        return target
+
     e_CXXTemporaryObjectExpr = e_CXXConstructExpr
 
     def e_LambdaExpr(self, n):
@@ -848,6 +959,31 @@ class Emitter:
         if r is not None:
             return r
         raise Unsupported("lambda in this position")
+
+    def lift_lambda_fn(self, n):
+        """captureless lambda -> static C function <unit>__lambda<k> (its operator() body, translated like any
+        function); returns the C name. Lambdas with captures are outside the subset."""
+        rec = next((c for c in n.get("inner", []) if c.get("kind") == "CXXRecordDecl"), None)
+        if rec is None or any(c.get("kind") == "FieldDecl" for c in rec.get("inner", [])):
+            raise Unsupported("lambda with captures")
+        op = next((c for c in rec.get("inner", []) if c.get("kind") == "CXXMethodDecl" and c.get("name") == "operator()"),
+                  None)
+        if op is None or not any(c.get("kind") == "CompoundStmt" for c in op.get("inner", [])):
+            raise Unsupported("lambda without a plain operator() body (generic lambda?)")
+        self.lambda_count = getattr(self, "lambda_count", 0) + 1
+        cname = "%s__lambda%d" % (self.unit.cname, self.lambda_count)
+        keep = ("unit", "unit_ret", "unit_ret_isref", "locals", "local_names", "ref_ids", "used_local_names", "pre",
+                "cn", "callflag", "stop_at_call")
+        saved = {k: getattr(self, k, None) for k in keep}
+        self.stop_at_call = None
+        try:
+            sig, text, unit = self.emit_function(op, cname, None, True)
+        finally:
+            for k, v in saved.items():
+                setattr(self, k, v)
+        self.lifted.append(text)
+        self.unit_names.add(cname)
+        return cname
 
     # ---- lambda lifting: closure -> lifted C function `ret f(void* __env, params)` + capture struct; the closure
     #      value is a struct vf_fn {fn, env} (same representation as a modelled std::function)
@@ -1117,6 +1253,21 @@ class Emitter:
     # ---------------------------------------------------------------- statements
     def S(self, n, ind):
         k = n.get("kind")
+        stops = self.cfg.get("stop_at_call")
+        if stops and k not in ("CompoundStmt", "IfStmt", "ForStmt", "WhileStmt", "DoStmt", "SwitchStmt", "CXXForRangeStmt",
+                               "CXXTryStmt", "CaseStmt", "DefaultStmt", "LabelStmt"):
+            # config stop_at_call: the unit is translated only up to the first simple statement that calls one of the
+            # listed functions (e.g. the simcall that hands over to the kernel): that statement becomes a return. The
+            # contract of the unit then speaks about the prefix only; the truncation is recorded in gen.json.
+            def hit(x):
+                if x.get("kind") in ("CallExpr", "CXXMemberCallExpr"):
+                    c = skip(x["inner"][0]) if x.get("inner") else {}
+                    nm = (c.get("referencedDecl") or {}).get("name") or c.get("name")
+                    return nm in stops
+                return False
+            if contains(n, hit):
+                self.truncated.append(self.unit.cname)
+                return [ind + "/* vf: unit truncated here (stop_at_call) */", ind + self.ret_zero()]
         m = getattr(self, "s_" + k, None)
         if m is not None:
             return m(n, ind)
@@ -1210,7 +1361,8 @@ class Emitter:
             # (an `if` of the program that merely CONTAINS a log statement is NOT a log statement)
             return then.get("kind") == "CompoundStmt" and len(then.get("inner", [])) >= 1 and \
                 all(self.is_log_event_part(s) for s in then["inner"]) and \
-                any(s.get("kind") == "CallExpr" for s in then["inner"])
+                any(s.get("kind") == "CallExpr" or (s.get("kind") in TRANSPARENT and self.is_log_event_part(s))
+                    for s in then["inner"])
         if k == "CompoundStmt":
             ss = n.get("inner", [])
             return len(ss) >= 1 and all(self.is_log_stmt(s) for s in ss)
@@ -1244,7 +1396,10 @@ class Emitter:
             if self.is_log_stmt(s):
                 self.dropped.append("log")
                 continue
-            out += self.S(s, ind + "  ")
+            part = self.S(s, ind + "  ")
+            out += part
+            if part and part[0].strip() == "/* vf: unit truncated here (stop_at_call) */":
+                break  # the rest of this block is behind the truncation point
         self.pop_scope()
         out.append(ind + "}")
         return out
@@ -1330,6 +1485,18 @@ class Emitter:
         name = self.decl_local(d, False)
         if init is None:
             return ["%s%s %s;" % (ind, ct, name)]
+        core = init
+        while core.get("kind") in TRANSPARENT:
+            core = core["inner"][0]
+        if core.get("kind") in ("CXXConstructExpr", "CXXTemporaryObjectExpr") and self.try_ctype(core) == ct and \
+                ct.startswith("struct ") and not ct.startswith("struct vf_") and \
+                (self.lib is None or self.with_pre(lambda: self.lib.construct(self, core))[1] is None):
+            # T x(args);  — the constructor runs on the variable itself
+            pre, e = self.with_pre(lambda: self.class_construct(core, name))
+            if e == name:
+                return ["%s%s %s;" % (ind, ct, name)] + [ind + p for p in pre] + self.exc_check(init, ind)
+            if e is not None:
+                return [ind + p for p in pre] + ["%s%s %s = %s;" % (ind, ct, name, e)] + self.exc_check(init, ind)
         pre, e = self.with_pre(lambda: self.E(init))
         out = [ind + p for p in pre]
         out.append("%s%s %s = %s;" % (ind, ct, name, e))
@@ -1410,6 +1577,12 @@ class Emitter:
         c = inner.pop(0)
         then = inner.pop(0)
         els = inner.pop(0) if inner else None
+        core = skip(c)
+        if not opened and core.get("kind") == "CXXBoolLiteralExpr" and not core.get("value"):
+            # `if (false) { debug code }`: statically dead branch, only the else part (if any) is emitted
+            if els is None or self.is_log_stmt(els):
+                return []
+            return self.body(els, ind)
         pre, ce = self.with_pre(lambda: self.E(c))
         if pre and not opened:
             out.append(ind + "{")
@@ -1599,7 +1772,15 @@ class Emitter:
                 pt = parse(qt(c))
                 pct = self.param_ctype(pt)
                 isref_p = pt.kind in ("ref", "rref") and not self.by_value(pt)
-                name = self.decl_local(c, isref_p) if c.get("name") else "__unused%d" % len(params)
+                if c.get("name"):
+                    name = self.decl_local(c, isref_p)
+                else:
+                    # unnamed parameter (e.g. of a defaulted copy constructor, whose synthesized body does use it)
+                    name = "__unused%d" % len(params)
+                    self.local_names[c["id"]] = name
+                    self.locals.add(c["id"])
+                    if isref_p:
+                        self.ref_ids.add(c["id"])
                 params.append("%s %s" % (pct, name))
                 ptypes.append(pct)
             elif k == "CompoundStmt":
@@ -1614,7 +1795,29 @@ class Emitter:
             lines += ["  " + l for l in env_prologue()]
         for ci in inits:
             lines += self.ctor_init(ci, "  ")
+        stop = getattr(self, "stop_at_call", None)
+        self.stop_at_call = None  # applies to the unit itself only, not to lambdas lifted from its body
+        if stop:
+            # unit key "stop_at_call": the top-level statements from the first one that calls <stop> on are NOT
+            # translated; they are represented by one call to the callee <cname>__rest(self), whose (assumed) contract
+            # the spec must give and the evidence lists. Only for void methods.
+            def calls_stop(x):
+                k = x.get("kind")
+                if k == "MemberExpr" and x.get("name") == stop:
+                    return True
+                return k == "DeclRefExpr" and (x.get("referencedDecl") or {}).get("name") == stop
+            stmts = body.get("inner", [])
+            idx = next((i for i, s in enumerate(stmts) if contains(s, calls_stop)), None)
+            if idx is None or ret != "void" or not cls_tag or static:
+                raise Unsupported("stop_at_call %s: no such call at top level of a void method %s" % (stop, cname))
+            body = dict(body)
+            body["inner"] = stmts[:idx]
+            rest = cname + "__rest"
+            self.note_proto(rest, "void", ["struct %s*" % cls_tag], "statements of %s from the call of %s on" % (cname, stop))
+            self.callees[rest] = "untranslated tail of %s (from the first top-level statement calling %s)" % (cname, stop)
         blines = self.s_CompoundStmt(body, "")
+        if stop:
+            blines[-1:] = ["  %s(self);" % rest, "  if (vf_exc) return;", "}"]
         sig = "%s %s(%s)" % (ret, cname, ", ".join(params) if params else "void")
         text = sig + "\n"
         if lines:
